@@ -723,3 +723,53 @@ func AlignPads(c ci.CommandInterface, rels []Relation) {
 		}
 	}
 }
+
+// CopyFields deep-copies every exported field (except the embedded Command) from src to dst,
+// cloning slices so that dst shares no memory with src.
+func CopyFields(dst, src ci.CommandInterface) {
+	dv, sv := reflect.ValueOf(dst).Elem(), reflect.ValueOf(src).Elem()
+	t := sv.Type()
+	for i := 0; i < t.NumField(); i++ {
+		sf := t.Field(i)
+		if !sf.IsExported() || (sf.Anonymous && sf.Name == "Command") {
+			continue
+		}
+		dv.Field(i).Set(deepClone(sv.Field(i)))
+	}
+}
+
+func deepClone(v reflect.Value) reflect.Value {
+	switch v.Kind() {
+	case reflect.Slice:
+		if v.IsNil() {
+			return reflect.Zero(v.Type())
+		}
+		out := reflect.MakeSlice(v.Type(), v.Len(), v.Len())
+		for i := 0; i < v.Len(); i++ {
+			out.Index(i).Set(deepClone(v.Index(i)))
+		}
+		return out
+	case reflect.Struct:
+		out := reflect.New(v.Type()).Elem()
+		for i := 0; i < v.NumField(); i++ {
+			if v.Type().Field(i).IsExported() {
+				out.Field(i).Set(deepClone(v.Field(i)))
+			}
+		}
+		return out
+	case reflect.Array:
+		out := reflect.New(v.Type()).Elem()
+		for i := 0; i < v.Len(); i++ {
+			out.Index(i).Set(deepClone(v.Index(i)))
+		}
+		return out
+	case reflect.Ptr:
+		if v.IsNil() {
+			return reflect.Zero(v.Type())
+		}
+		out := reflect.New(v.Type().Elem())
+		out.Elem().Set(deepClone(v.Elem()))
+		return out
+	}
+	return v
+}
